@@ -30,14 +30,16 @@ Done == 9999
 
 Init == k \in 1..Len(Rec) /\ l = 1 /\ e = Empty
 
-IsHist == Rec[k].op = "sumhist" /\ {"snaps", "texts", "done", "stable", "reparse"} \subseteq DOMAIN Rec[k].out
+IsHist == Rec[k].op = "sumhist" /\ {"snaps", "texts", "done", "stable", "reparse", "pb", "pv", "desc"} \subseteq DOMAIN Rec[k].out
 Steps == Rec[k].in.steps
-ArgOf(st) == LET v == st[2] IN IF Kind(v) = "I" THEN I64Print(I64Value(st[3])) ELSE st[3]
+ArgOf(st) == LET v == st[2] IN IF VKind(v) = "I" THEN I64Print(I64Value(st[3])) ELSE st[3]
 After(st) == IF st[1] = "set" THEN SetVal(e, st[2], ArgOf(st)) ELSE PushVal(e, st[2], st[3])
 StepOK == LET e2 == After(Steps[l])  o == Rec[k].out IN
           /\ o.snaps[l] = e2
           /\ o.texts[l] = Render(e2)
           /\ o.done[l] = TF(Completed(e2))
+          /\ o.pb[l] = AccBase(e2) /\ o.pv[l] = AccVer(e2)        \* accessors derived from PKGNAME (C18)
+          /\ o.desc[l] = DescStr(e2)
 
 TraceCall == /\ IsHist /\ l <= Len(Steps) /\ StepOK
              /\ e' = After(Steps[l]) /\ l' = l + 1 /\ UNCHANGED k
